@@ -66,7 +66,10 @@ Inductive op :=
 | ODrop (s : N)
 | OEntry (s k kid : N) (steps : list estep)
 | ORawEntry (s variant k : N) (steps : list estep)
-| ORawGet (s variant k : N).
+| ORawGet (s variant k : N)
+(* HashSet algebra (the map's values are ()): lazy iterators 0-3, operator forms 4-7; predicates *)
+| OSetAlg (kind a b : N)
+| OSetPred (kind a b : N).
 
 Section Map.
 Context (c : cfg).
@@ -462,6 +465,54 @@ Definition slot_of (w : world) (i : N) : option mslot := w_maps w !! i.
 Definition set_world_fuse (f : option N) (w : world) : world := W (w_maps w) (w_log w) f.
 Definition del_slot (i : N) (w : world) : world := W (delete i (w_maps w)) (w_log w) (w_fuse w).
 
+(* ---------------------------------------------------------------- HashSet algebra
+   The set-algebra iterators of src/set.rs are built from iter() and contains() on the two
+   operands; they are modelled as such (in a canonical iteration order: results are compared
+   as sorted sequences, so that duplicates show but the order does not). *)
+Definition elem3' (e : elem) : N * N * N := (ek e, ekid e, ev e).
+Fixpoint insert_sorted (x : N * N * N) (l : list (N * N * N)) : list (N * N * N) :=
+  match l with
+  | [] => [x]
+  | y :: l' => if fst (fst x) <=? fst (fst y) then x :: l else y :: insert_sorted x l'
+  end.
+Definition sorted3 (l : list elem) : list (N * N * N) := foldr insert_sorted [] (map elem3' l).
+
+Definition iter_elems (r : rt) : list elem :=
+  (map_to_list (hel (main r))).*2 ++
+  match lo r with Some o => firstn (N.to_nat (oit o)) (orem o) | None => [] end.
+Definition contains (r : rt) (k : N) : bool :=
+  match rt_find_pure r k with Some _ => true | None => false end.
+Definition s_difference (a b : rt) : list elem := List.filter (fun e => negb (contains b (ek e))) (iter_elems a).
+Definition s_symmetric_difference (a b : rt) : list elem := s_difference a b ++ s_difference b a.
+Definition s_intersection (a b : rt) : list elem :=
+  if rt_len a <=? rt_len b then List.filter (fun e => contains b (ek e)) (iter_elems a)
+  else List.filter (fun e => contains a (ek e)) (iter_elems b).
+Definition s_union (a b : rt) : list elem :=
+  if rt_len b <=? rt_len a then iter_elems b ++ s_difference a b
+  else iter_elems a ++ s_difference b a.
+Definition s_alg (kind : N) (a b : rt) : list elem :=
+  match kind with
+  | 0 => s_difference a b
+  | 1 => s_symmetric_difference a b
+  | 2 => s_intersection a b
+  | _ => s_union a b
+  end.
+(* &a - &b, &a ^ &b, &a & &b, &a | &b: the lazy iterator, cloned and collected into a new set *)
+Definition collect (l : list elem) : list elem := (map_to_list (list_to_emap l)).*2.
+Definition set_alg (kind : N) (a b : rt) : list (N * N * N) :=
+  if kind <? 4 then sorted3 (s_alg kind a b) else sorted3 (collect (s_alg (kind - 4) a b)).
+
+Definition s_is_disjoint (a b : rt) : bool := forallb (fun e => negb (contains b (ek e))) (iter_elems a).
+Definition s_is_subset (a b : rt) : bool := (rt_len a <=? rt_len b) && forallb (fun e => contains b (ek e)) (iter_elems a).
+Definition s_eq (a b : rt) : bool := (rt_len a =? rt_len b) && forallb (fun e => contains b (ek e)) (iter_elems a).
+Definition set_pred (kind : N) (a b : rt) : bool :=
+  match kind with
+  | 0 => s_is_disjoint a b
+  | 1 => s_is_subset a b
+  | 2 => s_is_subset b a
+  | _ => s_eq a b
+  end.
+
 Section Step.
 Context (c : cfg).
 
@@ -553,6 +604,20 @@ Definition step (w : world) (t : traced) : res world out :=
   | OEntry s k kid ss => rmap OutS (with_slot_h w s on perm (map_entry c k kid ss))
   | ORawEntry s variant k ss => rmap OutS (with_slot_h w s on perm (map_raw_entry c variant k ss))
   | ORawGet s variant k => with_slot_h w s on perm (map_raw_get variant k)
+  | OSetAlg kind a b =>
+      match w_maps w !! a, w_maps w !! b with
+      | Some ma, Some mb =>
+          if negb (m_filed ma =? m_hs ma) || negb (m_filed mb =? m_hs mb) then Fault FBadOp
+          else Ok (OutL (set_alg kind (m_rt ma) (m_rt mb))) w
+      | _, _ => Fault FBadOp
+      end
+  | OSetPred kind a b =>
+      match w_maps w !! a, w_maps w !! b with
+      | Some ma, Some mb =>
+          if negb (m_filed ma =? m_hs ma) || negb (m_filed mb =? m_hs mb) then Fault FBadOp
+          else Ok (OutB (set_pred kind (m_rt ma) (m_rt mb))) w
+      | _, _ => Fault FBadOp
+      end
   end.
 
 (* the harness catches every panic: the history goes on *)
@@ -583,11 +648,6 @@ Definition summary (m : mslot) : N * N * N * option (N * N * N) :=
 
 (* full contents of one map, for the checkpoint comparison: main table sorted by key, old table
    in cursor order *)
-Fixpoint insert_sorted (x : N * N * N) (l : list (N * N * N)) : list (N * N * N) :=
-  match l with
-  | [] => [x]
-  | y :: l' => if fst (fst x) <=? fst (fst y) then x :: l else y :: insert_sorted x l'
-  end.
 Definition dump (m : mslot) : list (N * N * N) * list (N * N * N) :=
   (foldr insert_sorted [] (map (fun p => elem3 (snd p)) (map_to_list (hel (main (m_rt m))))),
    match lo (m_rt m) with Some o => map elem3 (orem o) | None => [] end).
